@@ -21,6 +21,7 @@ Theorem c14_property_kv2_gen :
         written_once d = true /\
         Permutation (unnest d) (flatten g) /\
         (exists rest, unnest d = flat_elem (ids g) (nth 0 g dflt_gelem) :: rest) /\
+        (exists g', link (unnest d) = Some g' /\ flatten g' = unnest d) /\
         link (flatten g) = Some g.
 Proof.
   intros T o fold vtnames c HT Ho Hv Hc g Hg Hdoc Hne Hreach. split.
@@ -33,6 +34,7 @@ Proof.
     + apply (nest_written_once g fold vtnames c Hc Hg d H).
     + exact Hp.
     + exact Hr.
+    + apply (nest_reader_graph g fold vtnames c d H).
     + now apply link_flatten.
 Qed.
 
